@@ -3,11 +3,14 @@ package main
 import (
 	"context"
 	"fmt"
+	"io"
+	"sync"
 	"sync/atomic"
 	"time"
 
 	"github.com/avos-io/goat/gen/goatorepo"
 	"google.golang.org/grpc"
+	"google.golang.org/grpc/metadata"
 	"google.golang.org/protobuf/types/known/wrapperspb"
 )
 
@@ -151,4 +154,103 @@ func c02ReusedMessage(r *Run) {
 			rig.Close()
 		}
 	}
+}
+
+// c02HttpManyStreams: two dozen client-streaming calls on one connection over the HTTP transport, whose
+// handlers do not start receiving for a while (so the peer's read loop is held and their POSTs pile up
+// inside ServeHTTP), then all run to their end. Every stream that completed successfully delivered
+// exactly what its caller sent.
+func c02HttpManyStreams(r *Run) {
+	if !r.Want("httpmany") {
+		return
+	}
+	t, err := newTopo("http", nil, nil)
+	if err != nil {
+		r.Count("httpmany.no_listener")
+		return
+	}
+	defer t.close()
+	const streams = 24
+	in := map[string]any{"transport": "http", "concurrent_client_streams": streams, "handlers": "wait 300 ms before their first receive"}
+	r.Progress("httpmany", in)
+	gate := make(chan struct{})
+	var mu sync.Mutex
+	got := map[string][]string{}
+	t.impl.SetStream(func(m string, ss grpc.ServerStream) error {
+		who := mdGet(ss.Context(), "x-who")
+		<-gate
+		for {
+			b, err := recvB(ss)
+			if err != nil {
+				break
+			}
+			mu.Lock()
+			got[who] = append(got[who], string(b))
+			mu.Unlock()
+		}
+		return sendB(ss, []byte("sum"))
+	})
+	type res struct {
+		who  string
+		sent []string
+		err  error
+	}
+	out := make(chan res, streams)
+	for k := 0; k < streams; k++ {
+		go func(k int) {
+			who := fmt.Sprintf("s%02d", k)
+			x := res{who: who}
+			ctx, cancel := context.WithTimeout(metadata.AppendToOutgoingContext(context.Background(), "x-who", who), 3*hangTimeout)
+			defer cancel()
+			cs, err := t.cc.NewStream(ctx, descCli, mCliStream)
+			if err != nil {
+				x.err = err
+				out <- x
+				return
+			}
+			for i := 1; i <= 2; i++ {
+				p := fmt.Sprintf("%s-m%d", who, i)
+				if err := sendB(cs, []byte(p)); err != nil {
+					x.err = err
+					out <- x
+					return
+				}
+				x.sent = append(x.sent, p)
+			}
+			cs.CloseSend()
+			for {
+				if _, err := recvB(cs); err != nil {
+					if err != io.EOF {
+						x.err = err
+					}
+					break
+				}
+			}
+			out <- x
+		}(k)
+	}
+	time.Sleep(300 * time.Millisecond)
+	close(gate)
+	completed := 0
+	for k := 0; k < streams; k++ {
+		select {
+		case x := <-out:
+			if x.err != nil {
+				r.Violate("httpmany.failed", "history", "a client-streaming call over the HTTP transport failed although nothing was cancelled and the peer was merely slow to start reading", in, fmt.Sprint(x.who, ": ", x.err), "completes")
+				continue
+			}
+			completed++
+			mu.Lock()
+			g := fmt.Sprint(got[x.who])
+			mu.Unlock()
+			if g != fmt.Sprint(x.sent) {
+				r.Violate("httpmany.c2s", "history", "a stream completed successfully, but its handler did not receive exactly what the caller sent", in, fmt.Sprintf("%s: handler received %s", x.who, g), fmt.Sprint(x.sent))
+			}
+		case <-time.After(4 * hangTimeout):
+			r.Violate("httpmany.hang", "history", "streams over the HTTP transport did not finish", in, goroutineDump(), nil)
+			return
+		}
+	}
+	r.Eval("httpmany", true)
+	r.CountN("c02.httpmany.completed", completed)
 }
